@@ -687,8 +687,7 @@ Print Assumptions C16_rt_unicode_model.
    idna::domain_to_unicode = ToUnicode model - for the origin o of EVERY parse result, if o is a tuple then its ASCII AND its
    Unicode serialization parse to URLs whose origin is o.  Relative to the eight sampled adapter facts, outside the known
    classes on the host of o (host_known_free: a domain is a fixed point of the IDNA step - F-C10-1 - and outside
-   Known_C12 / Known_C10_long; an IPv4 address is read back from its dotted-decimal text; nothing for IPv6), for an ASCII
-   serialization shorter than 2^32. *)
+   Known_C12 / Known_C10_long; nothing for an IPv4 or IPv6 address), for an ASCII serialization shorter than 2^32. *)
 Definition C16_rt_statement2 : Prop :=
   forall A cfg,
   AdapterOK A -> AdapterUSV A -> NvNoTrunc A -> NvIdem A -> AsciiNoMark A -> MapPrefix A -> NvMapFix A -> NvNoGrow A ->
